@@ -166,3 +166,78 @@ contract(f'{TC}::TrajectoryCalc._integrate', props=INTEGRATE_PROPS,
               f'{TC}::TrajectoryCalc.spin_drift': [],
               'py_ballisticcalc/conditions.py::Atmo.get_density_factor_and_mach_for_altitude': [
                   'density-ratio-is-never-negative-and-speed-of-sound-is-positive']})
+
+
+# ---------------------------------------------------------------------------------------------------------------------
+# C01, vacuum: "in a vacuum they reproduce the closed-form parabola under standard gravity".
+# A second verification task on the same real loop (tagged contract; the loop contract below replaces the primary one
+# for this task only).  Antecedent: the station's density ratio is zero (what Vacuum.__init__ establishes, contracts/
+# atmo.py); the callee contract of Atmo.get_density_factor_and_mach_for_altitude then gives zero density at every
+# altitude, so the retardation term vanishes.  Ghost variable S2 = sum of the squared time steps taken so far.  The
+# invariant is the *discrete* parabola, exact for the semi-implicit Euler scheme:
+#     v(t) = v0 + g t,      p(t) = p0 + v0 t + g (t^2 + S2) / 2,      0 <= S2 <= calc_step * t
+# hence every state is within |g| calc_step t / 2 of the closed-form parabola p0 + v0 t + g t^2 / 2 (step clause), for
+# every wind, cant, look angle, table and step size - the bound vanishes as the step is refined.
+G_ = 'self._config.cGravityConstant'
+
+
+def _vac_witness(flags):
+    def w(ns):
+        """a real calculator initialised by the real _init_trajectory for a real shot in a real Vacuum atmosphere"""
+        P = ns['py_ballisticcalc']
+        shot = P.Shot(P.Weapon(P.Unit.Inch(2), P.Unit.Inch(12)), P.Ammo(P.DragModel(0.223, P.TableG7), P.Unit.FPS(2750)),
+                      look_angle=P.Unit.Degree(3), cant_angle=P.Unit.Degree(5), relative_angle=P.Unit.Degree(1),
+                      atmo=P.Vacuum(), winds=[P.Wind(P.Unit.MPH(5), P.Unit.Degree(45), P.Unit.Yard(100))])
+        calc = P.Calculator()
+        calc._calc._init_trajectory(shot)
+        return dict(self=calc._calc, shot_info=shot, maximum_range=600.0, record_step=150.0, filter_flags=flags, time_step=0.0)
+    return w
+
+
+VAC_INV = [
+    ('vacuum-velocity-is-muzzle-velocity-plus-gravity-times-time',
+     f'velocity_vector.x == {V0["x"]} and velocity_vector.z == {V0["z"]} and velocity_vector.y == {V0["y"]} + {G_} * time'),
+    ('vacuum-position-is-the-discrete-parabola',
+     f'range_vector.x == {P0["x"]} + ({V0["x"]}) * time and range_vector.z == {P0["z"]} + ({V0["z"]}) * time and '
+     f'range_vector.y == {P0["y"]} + ({V0["y"]}) * time + {G_} * (time * time + S2) / 2'),
+    ('sum-of-squared-steps-is-at-most-the-integration-step-times-the-elapsed-time', f'0 <= S2 and S2 <= self.calc_step * time'),
+]
+VAC_STEP = [
+    # exact form; with props/C01.py::lemma_vacuum_bound (0 <= S2 <= h t and g < 0 imply |g S2 / 2| <= |g| h t / 2) every
+    # state is within |g| calc_step time / 2 of the closed-form parabola p0 + v0 t + g t^2 / 2
+    dict(label='vacuum-state-is-the-closed-form-parabola-plus-half-g-times-the-sum-of-squared-steps', props=('C01',),
+         src=f'range_vector.x == {P0["x"]} + ({V0["x"]}) * time and range_vector.z == {P0["z"]} + ({V0["z"]}) * time and '
+             f'(range_vector.y - ({P0["y"]} + ({V0["y"]}) * time + {G_} * time * time / 2)) * 2 == {G_} * S2 and '
+             f'0 <= S2 and S2 <= self.calc_step * time and '
+             f'velocity_vector.x == {V0["x"]} and velocity_vector.z == {V0["z"]} and velocity_vector.y == {V0["y"]} + {G_} * time'),
+]
+contract(f'{TC}::TrajectoryCalc._integrate', tag='vacuum', props=('C01',),
+         params=dict(self=CALC, shot_info=SHOT, maximum_range=Real(lo=0), record_step=Real(lo=0),
+                     filter_flags=Enum(0, 31), time_step=Real(lo=0)),
+         requires=[('curve-matches-table', 'len(self._curve) == len(self._TrajectoryCalc__mach_list)'),
+                   ('table-ascending', 'forall(0, len(self._TrajectoryCalc__mach_list), lambda i: forall(i + 1, '
+                                       'len(self._TrajectoryCalc__mach_list), lambda j: self._TrajectoryCalc__mach_list[i] < '
+                                       'self._TrajectoryCalc__mach_list[j]))'),
+                   ('gravity-vector-is-the-configured-gravity', 'self.gravity_vector.y == self._config.cGravityConstant'),
+                   ('cant-is-a-rotation', 'self.cant_cosine * self.cant_cosine + self.cant_sine * self.cant_sine == 1'),
+                   ('vacuum-the-stations-density-ratio-is-zero', 'shot_info.atmo._density_ratio == 0')],
+         loops={0: LoopContract(
+             invariants=INV + VAC_INV, step=VAC_STEP,
+             ghost_init={'S2': '0.0'}, ghost_update={'S2': 'S2 + (time - head(time)) * (time - head(time))'},
+             lemmas_end=[('time-advances', 'time > head(time)'),
+                         ('a-time-step-is-at-most-the-integration-step', 'time - head(time) <= self.calc_step'),
+                         ('squared-time-step-is-at-most-integration-step-times-time-step',
+                          '(time - head(time)) * (time - head(time)) <= self.calc_step * (time - head(time))')],
+             types={'ranges': ListOf(ROW).alternatives()[0], 'filter': Flags(), 'current_flag': Flags(),
+                    'seen_zero': Flags()})},
+         raises={'RangeError': None},
+         modifies=['*._defined_units'], prune=True, heavy=True, witnesses=[_vac_witness(0), _vac_witness(31)],
+         result_shape=ListOf(ROW, minlen=1).alternatives()[0],
+         use={f'{TC}::_TrajectoryDataFilter.should_record': ['settings-untouched', 'time-of-last-record-is-the-old-one-or-now',
+                                                             'remembers-the-current-state-for-the-next-step'],
+              f'{TC}::create_trajectory_row': [],
+              f'{TC}::TrajectoryCalc.drag_by_mach': [],
+              f'{TC}::TrajectoryCalc.spin_drift': [],
+              'py_ballisticcalc/conditions.py::Atmo.get_density_factor_and_mach_for_altitude': [
+                  'zero-density-station-gives-zero-density-everywhere',
+                  'density-ratio-is-never-negative-and-speed-of-sound-is-positive']})
